@@ -206,8 +206,9 @@ class FSA:
         edge between `tail` and `head`.
 
         """
-        if len(self._out_dict[tail][head]) == 1:
-            return self._out_dict[tail][head][0]
+        labels = self._out_dict[tail].get(head, [])
+        if len(labels) == 1:
+            return labels[0]
         else:
             raise ValueError("ambiguous edge specification: there is not exactly"
                             f" one edge between {tail} and {head}" )
@@ -217,7 +218,7 @@ class FSA:
         and `head`.
 
         """
-        return self._out_dict[tail][head]
+        return list(self._out_dict[tail].get(head, []))
 
     def add_vertices(self, vertices):
         """Add vertices to the FSA.
